@@ -139,7 +139,7 @@ def real_run(ctx, binp, wd, what, n, nproc=8, maxlen=9000):
 
 
 def sig_dict(b):
-    """split an event signature 'a|fn|text' into a dict for known-finding matching"""
+    """split an event signature 'where|fn|file|text' into a dict for known-finding matching"""
     parts = (b.get("sig") or "").split("|")
     d = {"reason": b["reason"], "op": b["op"]}
     if len(parts) >= 1:
@@ -147,5 +147,7 @@ def sig_dict(b):
     if len(parts) >= 2:
         d["fn"] = parts[1]
     if len(parts) >= 3:
-        d["text"] = "|".join(parts[2:])
+        d["file"] = parts[2]
+    if len(parts) >= 4:
+        d["text"] = "|".join(parts[3:])
     return d
